@@ -23,5 +23,5 @@ PROP = dict(
           "scenarios with two names in parallel; one case = one name of one scenario; non-trivial if >= 2 callers with >= 2 different result classes; distinct by full case text"),
     explain="an entry point's answer to a known/unknown name, a caller's result or virtual return time, the service's request log, or the state of the store/cache after the lookups differs from the lookup model (which provably is gated, single-flight, bounded by each caller's own limit and never fails a caller with someone else's context error)",
     assumptions=["the scripted StoreClient honours context cancellation", "instants of one name's events are pairwise distinct (ties are decided by the Go scheduler)",
-                 "LookupSecret's unknown-name check and the start of the flight are one atomic step"],
+                 "in the TIMED flight model LookupSecret's unknown-name check and the DoChan call are one step (the step theorems about the flight's locked part, Store.lookup_finish, hold for any store state incl. a name that became known meanwhile; the window itself is opened in C15's model and harness)"],
 )
